@@ -757,6 +757,16 @@ def _unsorted_follow_error(req, io, mo):
     return ends_err(io) or ends_err(mo)
 
 
+def _only_modes_differ(a, b):
+    """two state dumps differ only in the mode fields of entries"""
+    import re
+    ea, eb = a.split(' ## ', 1)[-1].split('|'), b.split(' ## ', 1)[-1].split('|')
+    if len(ea) != len(eb):
+        return False
+    strip = lambda x: re.sub(r' mode=\d+ ', ' ', x)
+    return all(x == y or strip(x) == strip(y) for x, y in zip(ea, eb))
+
+
 def _only_link_kinds_differ(a, b):
     """two state dumps differ only in the d/f/files fields of link entries"""
     import re
@@ -803,6 +813,8 @@ def cmp_line(req, impl, model, cls=None):
         return 'dead'
     if op in ('copy', 'copy_b') and io == mo and io.startswith('ok') and _only_link_kinds_differ(impl, model):
         return 'dead'    # a copied link gets its kind from whether its target exists at that moment: order-dependent when the target is created by the same copy
+    if op == 'copy_b' and req.split(' ')[5:6] == ['1'] and io == mo and io.startswith('ok') and _only_modes_differ(impl, model):
+        return 'dead'    # with follow two source entries (a link and its target, two links to one target) can land on the same destination key: the surviving mode depends on the iteration order
     if op in ('copy', 'copy_b') and cls == 'copy_overlap':
         return 'dead'    # source and destination overlap (decided by the driver on the resolved keys): order-dependent, also in which error comes first
     if op in ('copy', 'copy_b') and io == mo and _copy_into_itself(req, impl):
